@@ -45,7 +45,7 @@ pub (super) struct JobQueueCore {
     pub (super) state: QueueState,
 
     /// If something is blocked on this queue, a condition variable to wake it up
-    pub (super) wake_blocked: Vec<Weak<Condvar>>,
+    pub (super) wake_blocked: Vec<(Weak<Condvar>, Weak<Mutex<bool>>)>,
 }
 
 impl fmt::Debug for JobQueue {
